@@ -151,8 +151,17 @@ pub struct InnerLt<'a>(pub &'a str);
         open_mods = ''.join('pub mod %s {\n    use crate::prelude::*;\n' % m for m in d.mods)
         close_mods = '}\n' * len(d.mods)
         path = '::'.join([defid] + d.mods + [deriveg.inst_src(d, d.inst)])
+        # further instantiations of the same definition (same path, same visible parameters): the argument without
+        # type info where the grammar has one, and a second value of the const parameter
+        extra = []
+        if d.noinfo_inst: extra.append(d.noinfo_inst)
+        if d.constp:
+            i2 = dict(d.inst); i2['N'] = 3
+            extra.append(i2)
         mods.append('pub mod %s {\n#![allow(dead_code, unused_imports, non_camel_case_types, non_snake_case)]\nuse crate::prelude::*;\n%s%s\n%s}\n' % (defid, open_mods, body, close_mods))
         regs.append('    v.push(meta_type::<%s>());' % path)
+        for ex in extra:
+            regs.append('    v.push(meta_type::<%s>());' % '::'.join([defid] + d.mods + [deriveg.inst_src(d, ex)]))
     progs.write_if_changed(os.path.join(FP, 'src', 'derived.rs'), '#![allow(dead_code, unused_imports)]\nuse crate::prelude::*;\n' + '\n'.join(mods) + '\npub fn metas() -> Vec<MetaType> {\n    let mut v = Vec::new();\n' + '\n'.join(regs) + '\n    v\n}\n')
     bt = [t for t in builting.types('quick') if t.depth <= 1]
     plain = [t.src for t in bt if 'BitVec' not in t.src]
@@ -185,6 +194,13 @@ fn section(name: &str, metas: Vec<MetaType>) {
     }
     let p: PortableRegistry = r.into();
     println!("section {name} roots={n} types={} {}", p.types.len(), hex(&p.encode()));
+    // what retain produces is produced metadata as well
+    let mut all = p.clone();
+    all.retain(|_| true);
+    println!("section {name}+retain-all roots={n} types={} {}", all.types.len(), hex(&all.encode()));
+    let mut third = p.clone();
+    third.retain(|i| i % 3 == 1);
+    println!("section {name}+retain-third roots={n} types={} {}", third.types.len(), hex(&third.encode()));
 }
 fn main() {
     section("builtin", builtin::metas());
